@@ -32,6 +32,14 @@ class C11(Prop):
                 return out
             filters = pats(r.choice([0, 0, 1, 2, 3]), True)
             ignores = pats(r.choice([0, 0, 1, 2, 4]), True)
+            if r.random() < 0.15:
+                # a pattern restated after a negation (the last matching pattern decides), or simply repeated
+                pos, neg = r.choice([("*.log", "!*.log"), ("*.txt", "!*.txt"), ("foo", "!foo"), ("target/", "!target/"), ("*", "!*"), ("x.log", "!*.log")])
+                where = r.choice([None, origin])
+                ignores = [{"pat": x, "in": where} for x in r.choice([[pos, neg, pos], [neg, pos, neg], [pos, pos, neg], [pos, neg, pos, neg]])] + ignores[:1]
+            if r.random() < 0.08:
+                pos, neg = r.choice([("*.log", "!*.log"), ("src/**", "!src/**"), ("*", "!*")])
+                filters = [{"pat": x, "in": None} for x in [pos, neg, pos]]
             exts = [r.choice(["rs", "txt", "log", "toml", "gz", "", "RS"]) for _ in range(r.choice([0, 0, 0, 1, 2, 3]))]
             files = []
             for _ in range(r.choice([0, 0, 1, 2])):
